@@ -147,13 +147,13 @@ func checkC20(c *C20Case) *ev.Failure {
 
 	if c.Rendezvous {
 		// all map functions must be able to run at the same time: wait until every one has been entered
-		deadline := time.Now().Add(5 * time.Second)
+		deadline := time.Now().Add(30 * time.Second)
 		for atomic.LoadInt32(&mapInflight) < int32(n) {
 			if time.Now().After(deadline) {
 				for _, g := range gates {
 					close(g)
 				}
-				return ev.Failf("deadlock", "only %d of %d map functions were started within 5s although none of them has returned (map functions that wait for each other never finish)", atomic.LoadInt32(&mapInflight), n)
+				return ev.Failf("deadlock", "only %d of %d map functions were started within 30s although none of them has returned (map functions that wait for each other never finish)", atomic.LoadInt32(&mapInflight), n)
 			}
 			runtime.Gosched()
 		}
@@ -241,10 +241,10 @@ func checkC20(c *C20Case) *ev.Failure {
 		return ev.Failf("errors-lost", "non-nil error list %v without failures", o.errs)
 	}
 	// goroutine leak: nothing with AsyncMapReduce on its stack may remain
-	deadline := time.Now().Add(2 * time.Second)
+	deadline := time.Now().Add(20 * time.Second)
 	for amrGoroutines() > 0 {
 		if time.Now().After(deadline) {
-			return ev.Failf("leak", "%d goroutine frames of common.AsyncMapReduce remain 2s after return", amrGoroutines())
+			return ev.Failf("leak", "%d goroutine frames of common.AsyncMapReduce remain 20s after return", amrGoroutines())
 		}
 		time.Sleep(200 * time.Microsecond)
 	}
